@@ -16,6 +16,8 @@ TIERS = {
     'quick': {'workers': 8, 'cases': 4200, 'timeout': 600, 'exhaustive_len': 0},
     'thorough': {'workers': 16, 'cases': 12000, 'timeout': 3000, 'exhaustive_len': 4},
 }
+# further workloads for the property's online monitor (vf/online.py): the repository's tests and other checks' generated cases
+ONLINE = {'which': ['lock'], 'foreign': ['C05', 'C11', 'C14', 'C20'], 'n': {'quick': 40, 'thorough': 600}}
 REQUIRED_BUCKETS = ['op:finalize', 'op:bind', 'op:parse', 'op:macro', 'op:register', 'op:external', 'op:clear', 'op:unlock', 'op:unlock-raises',
                     'op:unlock-nested', 'op:hookplan', 'op:poison', 'state:mutation-under-lock', 'state:double-finalize',
                     'state:unlock-while-locked', 'state:unlock-raises-while-locked', 'state:finalize-inside-unlock',
